@@ -227,7 +227,7 @@ PROPS['C20'] = dict(
               'C09_total', 'C09_total_no_divzero', 'C09_zero_target_keeps', 'C13_endBlock_total', 'C13_inv_block',
               'C20_no_send_on_closed', 'inv_step', 'inv_run', 'C20_original_crashes', 'C20_original_drops', 'C20_lock_needed', 'C20_index_needed',
               'fact_basefee_guards', 'fact_maxgas_guard', 'fact_block_panic_sites', 'fact_consume_locks_across_send', 'fact_install_shape', 'fact_uninstall_shape', 'fact_join_indexes'],
-    engines=[dict(name='crash', test='TestEngineCrash', quick=250, thorough=1200, thorough_seeds=4, no_model=True),
+    engines=[dict(name='crash', test='TestEngineCrash', quick=250, thorough=600, thorough_seeds=3, no_model=True),
              dict(name='conc', test='TestEngineConc', quick=3, thorough=12, thorough_seeds=2, no_model=True, race_in_thorough=True)],
     rule='E-crash: batches of 1-4 hostile transactions (16 classes: garbage / empty embedded Ethereum payloads, extreme numeric fields, every custom-precompile selector with random / truncated / saturated / far-offset calldata directly and through CALL / STATICCALL / DELEGATECALL / CALLCODE, mixed lanes, nested authz, bad addresses and coins, adversarial module messages, Ethereum message in the Cosmos lane, mutated valid bytes, random bytes, random init code with large access lists, foreign chain ids, value into module / precompile addresses, wrong declared sender) through CheckTx (new, recheck), PrepareProposal, ProcessProposal, FinalizeBlock + Commit with a recover sentinel outside BaseApp; gRPC queries (15 paths, adversarial and random request bytes, heights incl. negative and future); consensus-parameter sweeps (MaxGas -1,0,1,2,20999,21000,21001,1e6 x MaxBytes 1,200,default,-1) with blocks of valid transactions; a liveness block after every fifth batch and every sweep; isolation on two fresh instances of the application (same genesis, block 1 with one position holding two different failing transactions that leave no event). E-conc: the real EventSystem + memEventBus over the real CometBFT WSClient against an in-process websocket endpoint, in child processes: the two schedules of the protocol model forced through the verif schedule points, and 6-goroutine subscribe / unsubscribe stress with events for known and unknown queries (thorough: under the race detector). Non-trivial = every crash / conc line; distinct by op-line hash',
     assumptions=['crash-freedom for inputs outside the generators is NOT proved: E-crash is an exploration (labelled); the theorems cover isolation and totality in the block / fee-market / receipt models and the channel protocol of the event system',
